@@ -561,6 +561,18 @@ try:
     out["miss"] = {"ok": r1 == ("value", E.doit()), "input": f"perform_cached_doit({E}) in an empty directory", "expected": str(E.doit()), "observed": str(r1[1])}
     out["hit"] = {"ok": r2 == ("value", E.doit()) and len(pkls(d)) == 1, "input": f"second perform_cached_doit({E})", "expected": str(E.doit()), "observed": str(r2[1]), "files": pkls(d)}
 finally: shutil.rmtree(d, ignore_errors=True)
+# a hit must return what doit() returns also for expressions whose unfolding contains nodes that pickle rebuilds through a normalising
+# constructor (an integral over a Piecewise integrand: the documented dispersion-integral use)
+from ampform.sympy import UnevaluatableIntegral
+from ampform.dynamics.phasespace import EqualMassPhaseSpaceFactor
+xi, si, mi = sp.symbols("x s m", nonnegative=True)
+DI = si * UnevaluatableIntegral(EqualMassPhaseSpaceFactor(xi, mi, mi) / (xi * (xi - si)), (xi, 4 * mi**2, sp.oo))
+d = fresh()
+try:
+    r1 = call(DI, d); r2 = call(DI, d); want = DI.doit()
+    out["hit_dispersion_integral"] = {"ok": r1 == ("value", want) and r2 == ("value", want), "input": f"perform_cached_doit({DI}) twice (miss, then hit)", "expected": sp.srepr(want)[:300],
+                                      "observed": f"miss: {sp.srepr(r1[1])[:200] if r1[0] == 'value' else r1[1]}; hit: {sp.srepr(r2[1])[:200] if r2[0] == 'value' else r2[1]}"}
+finally: shutil.rmtree(d, ignore_errors=True)
 s, m0, w0, ma, mb = sp.symbols("s m0 Gamma0 m_a m_b", nonnegative=True)
 pair("equal_str_different_phsp_factor", EnergyDependentWidth(s, m0, w0, ma, mb, 1, 1, phsp_factor=PhaseSpaceFactor), EnergyDependentWidth(s, m0, w0, ma, mb, 1, 1, phsp_factor=PhaseSpaceFactorSWave),
      "first: phsp_factor=PhaseSpaceFactor; second: phsp_factor=PhaseSpaceFactorSWave; ")
@@ -676,7 +688,7 @@ def scen_replay(seed, names, tier="quick"):
 
 def search(model=None, tier="quick"):
     for seed in (None, "0"):
-        r = scen_replay(seed, ["miss", "hit", "equal_str_different_phsp_factor", "equal_str_different_assumptions", "equal_hash_1/x_vs_1/x**2", "attribute_dict_same_keys_other_values",
+        r = scen_replay(seed, ["miss", "hit", "hit_dispersion_integral", "equal_str_different_phsp_factor", "equal_str_different_assumptions", "equal_hash_1/x_vs_1/x**2", "attribute_dict_same_keys_other_values",
                                "attribute_list_other_values", "truncated", "foreign",
                                "legacy_record", "pair_record", "killed_writer", "observer"], tier)()
         if r["reproduced"] or "error" in r:
@@ -831,7 +843,7 @@ def build(chk: Check) -> None:
         tagp = f"PYTHONHASHSEED={'unset' if seed is None else seed}"
         chk.struct(f"scenarios[{tagp}].ran_against_the_tree_under_verification", "error" not in sc and os.path.realpath(sc.get("ampform", "")) == os.path.realpath(os.path.dirname(AS.__file__)),
                    F, witness=sc.get("error") or sc.get("ampform"), lemma=True, replay=rep_any)
-        for name in ("miss", "hit"):
+        for name in ("miss", "hit", "hit_dispersion_integral"):
             r = sc.get(name, {"ok": False, "observed": sc.get("error", "missing")})
             chk.struct(f"scenarios[{tagp}].{name}_returns_doit", r["ok"], F, witness=r, replay=scen_replay(seed, [name], tier), bounded=True)
         # the E3 proof assumes that == on expressions is structural equality incl. non-SymPy attributes (C14's contract): these
